@@ -61,6 +61,33 @@ Printable == <<" ", "!", "\"", "#", "$", "%", "&", "'", "(", ")", "*", "+", ",",
 ByteSym(n) == IF n = 0 THEN "<0>" ELSE IF n = 9 THEN "\t" ELSE IF n = 10 THEN "\n" ELSE IF n = 13 THEN "\r"
               ELSE IF n >= 32 /\ n <= 126 THEN Printable[n - 31] ELSE "<X>"
 
+\* a rune written as \u / \U escape, as a symbol of the model alphabet: ASCII exactly, beyond ASCII the class of the code point for
+\* the code points listed here (letters, numbers, others), "?" for any other code point (the model has no Unicode tables)
+RuneSym(v) ==
+  IF v < 128 THEN ByteSym(v)
+  ELSE IF v \in {170, 233, 453, 945, 1058, 26085, 12384} THEN "<L>"
+  ELSE IF v \in {178, 189, 1635, 8551} THEN "<N>"
+  ELSE IF v \in {128, 160, 8232, 8482, 9731, 12288, 55295, 57344, 65533, 128512, 1114111} THEN "<S>"
+  ELSE "?"
+
+RECURSIVE HexNum(_, _, _, _)
+HexNum(b, i, n, acc) ==       \* value of the n hex digits b[i..i+n-1], -1 if there are fewer or another character is among them
+  IF n = 0 THEN acc ELSE IF i > Len(b) \/ HexVal(b[i]) > 15 THEN -1
+  ELSE HexNum(b, i + 1, n - 1, IF acc > 69631 THEN 2000000 ELSE 16 * acc + HexVal(b[i]))      \* beyond U+10FFFF the exact value does not matter
+OctVal(c) == IF c \in {"0", "1", "2", "3", "4", "5", "6", "7"} THEN HexVal(c) ELSE 99
+\* is the escape starting at b[i] a byte escape (\xHH or \NNN) whose value is a UTF-8 continuation byte?
+ContEscape(b, i) ==
+  /\ i + 3 <= Len(b) /\ b[i] = "\\"
+  /\ \/ (b[i + 1] = "x" /\ HexNum(b, i + 2, 2, 0) >= 128 /\ HexNum(b, i + 2, 2, 0) <= 191)
+     \/ (OctVal(b[i + 1]) < 8 /\ OctVal(b[i + 2]) < 8 /\ OctVal(b[i + 3]) < 8
+         /\ 64 * OctVal(b[i + 1]) + 8 * OctVal(b[i + 2]) + OctVal(b[i + 3]) \in 128..191)
+\* a byte written as escape: below 128 the character; above, an invalid byte on its own - unless it starts a UTF-8 sequence that
+\* the following byte escapes continue (then the bytes may form a rune: not followed by this model)
+ByteEsc(b, next, n, acc) ==
+  IF n > 255 THEN [r |-> "err"]
+  ELSE IF n >= 194 /\ ContEscape(b, next) THEN [r |-> "unm"]
+  ELSE [r |-> "go", s |-> IF n >= 128 THEN "<X>" ELSE ByteSym(n)]
+
 \* result: [r |-> "ok", s |-> string] | [r |-> "err"] | [r |-> "unm"] (an escape form this model does not follow)
 RECURSIVE UnqDouble(_, _, _)
 UnqDouble(b, i, acc) ==      \* b = symbols between the quotes
@@ -76,11 +103,20 @@ UnqDouble(b, i, acc) ==      \* b = symbols between the quotes
         [] e = "\\" -> UnqDouble(b, i + 2, acc \o "\\")
         [] e = "\"" -> UnqDouble(b, i + 2, acc \o "\"")
         [] e \in {"a", "b", "f", "v"} -> UnqDouble(b, i + 2, acc \o "<X>")
-        [] e = "x" -> IF i + 3 <= Len(b) /\ HexVal(b[i + 2]) < 16 /\ HexVal(b[i + 3]) < 16
-                      THEN LET n == 16 * HexVal(b[i + 2]) + HexVal(b[i + 3]) IN
-                           UnqDouble(b, i + 4, acc \o (IF n >= 128 THEN "<X>" ELSE ByteSym(n)))
-                      ELSE [r |-> "err"]
-        [] e \in {"u", "U", "0", "1", "2", "3", "4", "5", "6", "7"} -> [r |-> "unm"]
+        [] e = "x" -> LET n == HexNum(b, i + 2, 2, 0) IN
+                      IF n < 0 THEN [r |-> "err"]
+                      ELSE LET x == ByteEsc(b, i + 4, n, acc) IN IF x.r = "go" THEN UnqDouble(b, i + 4, acc \o x.s) ELSE x
+        [] e \in {"0", "1", "2", "3", "4", "5", "6", "7"} ->
+                      IF i + 3 > Len(b) \/ OctVal(b[i + 2]) > 7 \/ OctVal(b[i + 3]) > 7 THEN [r |-> "err"]
+                      ELSE LET n == 64 * OctVal(e) + 8 * OctVal(b[i + 2]) + OctVal(b[i + 3])
+                               x == ByteEsc(b, i + 4, n, acc)
+                           IN IF x.r = "go" THEN UnqDouble(b, i + 4, acc \o x.s) ELSE x
+        [] e \in {"u", "U"} ->
+                      LET w == IF e = "u" THEN 4 ELSE 8
+                          v == HexNum(b, i + 2, w, 0)
+                      IN IF v < 0 \/ v > 1114111 \/ (v >= 55296 /\ v <= 57343) THEN [r |-> "err"]
+                         ELSE IF RuneSym(v) = "?" THEN [r |-> "unm"]
+                         ELSE UnqDouble(b, i + 2 + w, acc \o RuneSym(v))
         [] OTHER -> [r |-> "err"]
 
 RECURSIVE DropCR(_, _)
